@@ -12,3 +12,12 @@ func (l *sessionManager) VerifCloseStore() {
 		c.Close()
 	}
 }
+
+// Inner yield points (mutex acquisitions / releases found by the instrumenter's generic rule). nil = no-op.
+var VerifStep func(label string, args ...string)
+
+func verifStep(label string, args ...string) {
+	if VerifStep != nil {
+		VerifStep(label, args...)
+	}
+}
